@@ -9,6 +9,9 @@ R17.4 every function reading the flag has the shape "flag set => raise" (or is t
       raise_or_warn call sites and soft enum converters are enumerated and sit on the build / write path.
 R17.5 names, set identifier and header id go through the validator; the pattern is exactly [A-Z0-9_-]+ with fullmatch.
 R17.6 the write-time checks dominate record generation.
+R17.7 (value flow) the enum converter lets a given text through unchanged on the strength of the enum's *values* only: no
+      condition under which it returns the given text tests that text against the member names (a member name such as
+      'BOREHOLE_DEPTH' is not one of the standard's strings and would be written verbatim, in the mode too).
 """
 
 from __future__ import annotations
@@ -413,6 +416,63 @@ def run(chk):
     chk.require(ccf is not None and unconditionally_calls(chk.terms, cof, ccf), "R17.6",
                 "check_objects-calls-assignment-check",
                 "check_objects no longer runs the channel-frame assignment check", cof.where)
+    r17_7_accepts_values_only(chk)
+
+
+_NAME_TABLES = ("__members__", "_member_names_", "_member_map_")
+
+
+def _names_collection(t, cls_t) -> bool:
+    """Is t a collection of the enum's member *names*: cls.__members__ / _member_names_ / _member_map_ (or their keys,
+    or a list / set / tuple of them), or a comprehension over the members that yields `.name`?"""
+    from ..terms import subterms
+    if not isinstance(t, tuple):
+        return False
+    if t[0] == "attr" and t[1] == cls_t and t[2] in _NAME_TABLES:
+        return True
+    if t[0] == "call" and isinstance(t[1], tuple) and t[1][0] == "attr" and t[1][2] == "keys":
+        return _names_collection(t[1][1], cls_t)
+    if t[0] == "call" and isinstance(t[1], tuple) and t[1][0] == "global" and \
+            t[1][1].split(".")[-1] in ("list", "set", "tuple", "frozenset", "sorted") and len(t[2]) == 1:
+        return _names_collection(t[2][0], cls_t)
+    if t[0] == "comp" and len(t) > 3:
+        el = t[2]      # ("comp", kind, element, generators)
+        return isinstance(el, tuple) and el[0] == "attr" and el[2] == "name" and \
+            any(x == cls_t for x in subterms(t))
+    return False
+
+
+def r17_7_accepts_values_only(chk):
+    from ..common import enum_converter
+    from ..terms import return_alternatives, pp
+    conv, v, cls_t = enum_converter(chk.ix, chk.terms)
+    chk.consult(conv)
+    cs = chk.terms.inline(conv, 2, stop=lambda g: g.cls is None or g.cls.name != "ValidatorEnum")
+    alts = [(c, t) for c, t in return_alternatives(cs) if t == v]
+    chk.floor("paths on which the enum converter returns the given text", len(alts), 1)
+    bad = []
+
+    def walk(c, pos):
+        if not isinstance(c, tuple):
+            return
+        if c[0] == "not":
+            walk(c[1], not pos)
+        elif c[0] in ("and", "or"):
+            for x in c[1]:
+                walk(x, pos)
+        elif c[0] == "cmp" and c[1] in ("in", "not in") and c[2] == v and (c[1] == "in") == pos and \
+                _names_collection(c[3], cls_t):
+            bad.append(c)
+        elif c[0] == "call" and isinstance(c[1], tuple) and c[1] == ("global", "hasattr") and pos and \
+                len(c[2]) == 2 and c[2][0] == cls_t and c[2][1] == v:
+            bad.append(c)
+    for conds, _t in alts:
+        for c in conds:
+            walk(c, True)
+    chk.require(not bad, "R17.7", "given-text-accepted-by-member-value-only",
+                f"the enum converter returns the given text unchanged when `{pp(bad[0])[:70] if bad else ''}`: a member "
+                f"*name* is accepted and written verbatim although it is not one of the standard's strings (in the mode "
+                f"no error, outside it no warning)", conv.where)
 
 
 def _generator_cm(chk, ix, cm):
